@@ -29,8 +29,26 @@ pub struct Optimizer<F>(core::marker::PhantomData<F>);
 
 impl<F: Field> Optimizer<F> {
     pub fn optimize(ops: Vec<Op<F>>) -> (Vec<Op<F>>, HashMap<WitnessId, WitnessId>) {
+        Self::optimize_with_private_inputs(ops, &[])
+    }
+
+    /// Like [`Self::optimize`], additionally told which witnesses are private inputs.
+    ///
+    /// Private inputs are written by the runner before any op executes, so an ALU op whose
+    /// `out` is a private input runs backwards and must not be treated as the definition
+    /// of that witness.
+    pub fn optimize_with_private_inputs(
+        ops: Vec<Op<F>>,
+        private_inputs: &[WitnessId],
+    ) -> (Vec<Op<F>>, HashMap<WitnessId, WitnessId>) {
         let (ops, rewrite) = Deduplicator::new().run(ops);
-        let ops = MulAddFusion::new(&ops).run(ops);
+        let private_inputs: Vec<WitnessId> = private_inputs
+            .iter()
+            .map(|id| id.resolve(&rewrite))
+            .collect();
+        let ops = MulAddFusion::new(&ops)
+            .with_external_writes(&private_inputs)
+            .run(ops);
         (ops, rewrite)
     }
 }
